@@ -810,6 +810,53 @@ def gcp_source_part(R: Run, mods):
         R.corr(line, lambda: grid_s(out), sig=f"outany|gcp|{'own-crs' if dst == crs else 'x-crs'}|{mode_s(mode).split(':')[0]}")
 
 
+
+def shape_corner_part(R: Run, mods):
+    """the own-CRS x explicit shape x default-anchor corner, on EVERY run (fixed matrix): next to the identity fast path
+    (own CRS, resolution auto / same, default anchor) a shape request — tuple or single integer, equal to the source's
+    shape or not, tight or not — must give a grid of THAT shape / longest side, never the source handed back.
+    Tuple shapes: exact correspondence of the outcome (`source` or the shape; op `outshape`) + oracle; integer
+    shapes: oracle (n, or n + 1 under the known finding int-shape-longest-side-plus-one)."""
+    Affine, GeoBox, ov, M, CRS, norm_crs, _pick, resxy_, xy_, AnchorEnum = mods
+    rng = R.rng
+    srcs = [GeoBox((6, 9), Affine(1024, 0, 400000, 0, -1024, 5600000), "EPSG:32633"),
+            GeoBox((7, 4), Affine(0.25, 0, 14, 0, -0.25, 50), "EPSG:4326"),
+            GeoBox((5, 5), Affine(-2048, 0, 1600000 + 5 * 2048, 0, -2048, 6500000), "EPSG:3857")]
+    for g in srcs:
+        ny, nx = g.shape
+        spec = f"EPSG:{g.crs.epsg}"
+        shapes = [(3, 5), (ny, nx), (ny + 2, nx), (nx, ny), 7, max(ny, nx), max(ny, nx) + 3, 1]
+        for mode in ("auto", "same"):
+            for shape in shapes:
+                for tight in (False, True):
+                    dst_arg = rng.choice([spec, spec.lower(), g.crs, int(spec.split(":")[1]), mk_crs(rng, CRS, spec)])
+                    via_to_crs = rng.random() < 0.3
+                    case = {"shape-corner": True, "src": f"{tuple(g.shape)} {tuple(g.affine)[:6]} {spec}", "dst": spec, "mode": mode,
+                            "shape": shape, "tight": tight, "anchor": "default", "tol": TOL_DEFAULT, "how": type(dst_arg).__name__}
+                    try:
+                        if via_to_crs:
+                            with Spy(mods) as spy:
+                                out = g.to_crs(dst_arg, resolution=mode, shape=shape, tight=tight)
+                        else:
+                            out, spy = call_cog(mods, g, dst_arg, mode, shape, tight, "default", TOL_DEFAULT, None)
+                    except Exception as e:  # pylint: disable=broad-except
+                        R.oracle(False, "shape-request-raises", case, f"shape={shape} resolution={mode!r} on the own CRS: {type(e).__name__}: {e}")
+                        continue
+                    sig = f"shape-corner|{'tuple' if isinstance(shape, tuple) else 'int'}|{mode}" + ("|tight" if tight else "")
+                    want_same = tuple(g.shape) == shape if isinstance(shape, tuple) else max(g.shape) == shape
+                    R.oracle(out is not g or want_same, "shape-request-returns-source", case,
+                             f"own CRS, resolution={mode!r}, shape={shape}: the source GeoBox {tuple(g.shape)} came back unchanged", sig=sig)
+                    if out is not g or not want_same:
+                        shape_oracle(R, shape, out, tight, "default", case, sig, TOL_DEFAULT)
+                    if isinstance(shape, tuple):
+                        try:
+                            line, _ = captured_line(mods, g, spec, mode, shape, tight, "default", TOL_DEFAULT, None, spy)
+                        except Exception:  # pylint: disable=broad-except
+                            continue
+                        real = "source" if out is g else f"{out.shape[0]} {out.shape[1]}"
+                        R.corr(line.replace("c11 out ", "c11 outshape ", 1), lambda real=real: real, sig=sig)
+
+
 # ------------------------------------------------------------------ utm / pick_best
 def utm_part(R: Run, mods):
     Affine, GeoBox, ov, M, CRS, norm_crs, _pick, resxy_, xy_, AnchorEnum = mods
@@ -1046,7 +1093,7 @@ def float_part(R: Run, mods):
         # extents: tile ... continental; UTM-related pairs stay within a zone's neighbourhood
         cls = rng.choice(["tile", "tile", "region", "continental"])
         if it % 30 == 15:
-            crs_churn(R, mods, R.pick(20, 120))
+            crs_churn(R, mods, R.pick(40, 120))
         pool_e, pool_n = crs_pool(rng, lon, lat, u, aus)
         src_crs = rng.choice(pool_e + pool_e + pool_n)
         dst = rng.choice(pool_e + pool_n + rng.sample(UTM_SPELLINGS, 4))
@@ -1557,9 +1604,12 @@ def run(R: Run):
     glue_part(R, mods)
     gcp_source_part(R, mods)
     units_part(R, mods)
-    crs_churn(R, mods, R.pick(120, 1600))
+    # more than 256 distinct ad-hoc CRS definitions pass through the process before the enclosure streams, on every run
+    # (cache-eviction / object-id reuse histories need that scale: do not trim below ~300)
+    crs_churn(R, mods, R.pick(330, 1600))
     nonepsg_part(R, mods)
     fastpath_part(R, mods)
+    shape_corner_part(R, mods)
     antimeridian_corpus(R, mods)
     utm_matrix_part(R, mods)
     coarse_part(R, mods)
